@@ -22,6 +22,11 @@ CLAIMS = {
          "an undeclared scheme makes both GenerateControllersSpec fail with no operation; validateSecurity rejects iff enforceSecurityOnAllRoutes and the route has no effective security.",
          "Bounds as coded in harness/.../generator/swagen/zz_verif_c04.go and core/validators/zz_verif_c10.go. annotations.GetCastProperty (reflection) is modelled by an engine intrinsic with its documented contract; the router side (SecurityCheckList) is C03.",
          "DESIGN.md 4 (C04)"),
+ "C07": ("Emitter half: for a model list of two structs (one with up to 2 symbolic fields over 9 (thorough 11) type shapes incl. slices, maps, enum, alias, other struct, embedded struct, time, bytes; symbolic json tag and validate tag), an enum with 1-2 symbolic values and an alias, "
+         "both GenerateModelsSpec produce exactly one component per model; properties are the JSON-visible fields with mapped type or $ref, required = fields validated as required, embedded structs via allOf, enum lists its constants, alias maps to its primitive; "
+         "metamorphic non-interference: every other component is structurally identical whether or not the using struct carries usage-site validators; every $ref names an existing component; 3.0 and 3.1 components agree.",
+         "Bounds as coded in harness/.../generator/swagen/zz_verif_c07.go. Outside: reachability closure and enum-constant discovery over Go type graphs (go/types visitors), json:\"-\" filtering (done by the struct visitor), RFC-7807 model injection (AppendErrorSchema is a literal).",
+         "DESIGN.md 4 (C07)"),
  "C10": ("Receiver-level accept decision (CommonValidator + validateParams + annotation linker, as ReceiverValidator.Validate combines them) for every route with <=1 URL name, <=2 function parameters (primitive or struct, optional context), <=2 parameter annotations "
          "of the five kinds with symbolic values and optional name alias: no error diagnostic iff the property's linking/body/form/primitive rules hold (soundness and completeness asserted separately); return signature and verb rules; no duplicate diagnostics. "
          "One recorded finding (alias-less @Path not checked against URL names) is reported as KNOWN-FINDING.",
